@@ -135,7 +135,7 @@ class NsHandler:
         if not isinstance(title, str):
             title = title.decode('utf-8') if isinstance(title, bytes) else str(title)
         name = re.sub(r' +', ' ', _strip_edges(title.replace("_", " ")))
-        if name.startswith(":"):
+        while name.startswith(":"):
             name = _strip_edges(name[1:])
             defaultns = 0
 
